@@ -22,16 +22,33 @@
                            earlier path is on the wire
   * `direct_when_single_hop` — a one-entry routing sends the plain request (no Send Message)
   * `bridged_is_bytes`   — the transmitted nest is a byte string
-  * `unwrap_wrap`        — ANY number of successful Send Message responses around a reply whose
-                           command is not Send Message unwrap to exactly that reply
-  * `unwrap_error`       — first failing layer (completion code c ≠ 0, whatever follows it):
-                           CompletionCodeError c
-  * `bare_ack_empty`     — an acknowledgement without forwarded reply (at any nesting depth)
-                           unwraps to the empty string …
-  * `bare_ack_waits`     — … and the transport loop then skips it: after ANY number of bare
-                           acknowledgements the (wrapped or plain) matching reply is returned,
-                           completion code and data exactly; nothing in the loop model counts them
-  * `bare_ack_not_returned` — acknowledgements alone never produce a result
+  Replies (`Bridge.Variant`: `repaired` = the source with fixes/C09-1.diff, `asShipped` = the pinned source,
+  which takes every frame whose command BYTE is 34h for a Send Message response):
+  * `source_recognition` — the working tree compares the network function too and verifies both checksums
+                           on request (AST of decode_bridged_message / is_send_message_response, Gen/IpmbFilter)
+  * `unwrap_wrap`        — ANY number of successful Send Message responses around a reply that is not itself
+                           a Send Message response (netFn 07h AND command 34h) unwrap to exactly that reply
+  * `unwrap_wrap_any_command` — … i.e. the reply to EVERY inner command but App/34h: command 34h in any other
+                           network function included (HPM.1 Get Upgrade Status = 2Ch/34h)
+  * `unwrap_wrap_asShipped`, `unwrap_wrap_asShipped_counterexample`
+                         — as shipped this holds only when the reply's command byte is not 34h; the reply to
+                           2Ch/34h is unwrapped one layer too far (witness replayed by the check)
+  * `unwrap_error`       — first failing layer (completion code c ≠ 0, whatever follows it): CompletionCodeError c
+  * `bare_ack_empty`     — an acknowledgement without forwarded reply (any nesting depth) unwraps to the empty string
+  * `damaged_wrapper_not_unwrapped`, `corrupted_wrapper_not_unwrapped`
+                         — with verification (what the transport asks for) a frame one of whose checksums fails
+                           is handed back untouched: any single corrupted byte of a wrapper keeps it from being
+                           unwrapped (no completion code is read from it)
+  Transport (`classifyRx` / `recvBridged`):
+  * `bare_ack_not_returned`, `bare_ack_waits`
+                         — acknowledgements of THIS transaction are skipped, any number of them; then the
+                           (wrapped or plain) matching reply is returned, completion code and data exactly
+  * `unbridged_reply_returned`, `unbridged_reply_asShipped_counterexample`
+                         — a request that is not bridged never unwraps: every intact reply is returned, command
+                           34h included; as shipped `Hpm.get_upgrade_status()` ends in IndexError
+  * `unbridged_never_raises_cc`, `late_ack_is_noise`, `late_ack_asShipped_counterexample`
+                         — the completion code of a foreign / late Send Message response is never raised for
+                           the request in hand (as shipped it is)
 -/
 import PyIpmi.Lemmas.IpmbBridge
 namespace PyIpmi.Props.C09
@@ -116,72 +133,188 @@ theorem bridged_is_bytes (rs : List Route) (last : Route) (h : Hdr) (p : List Na
       · simp [frameOf_length, hlen]; omega
     | _ => rw [hg] at hf; simp [Outcome.bind] at hf
 
-/-! ### replies -/
+/-! ### replies
 
-theorem unwrap_wrap (layers : List Hdr) (reply : List Nat) (h6 : 6 ≤ reply.length)
-    (hc : reply[5]? ≠ some 0x34) : decodeBridged (wrapReply layers reply) = .ok reply := by
+`Variant.repaired` is the source with fixes/C09-1.diff (a Send Message response is recognised by netFn
+App + 1 AND command 34h, both checksums verified when the transport asks; the transport unwraps only
+the response to the Send Message it has outstanding); `Variant.asShipped` is the pinned source, which
+looks at the command byte alone.  The property theorems are about the former, the counter-examples
+about the latter. -/
+
+/-- The working tree recognises a Send Message response by its network function as well as its
+command, and verifies both checksums on request (read from the AST of `decode_bridged_message` /
+`is_send_message_response` on every run). -/
+theorem source_recognition : Gen.IpmbFilter.recogNetfn = true ∧ Gen.IpmbFilter.recogVerify = true := by
+  decide
+
+/-- ANY number of successful Send Message responses around a reply that is not itself a Send Message
+response (netFn 07h AND command 34h) unwrap to exactly that reply — with or without verification. -/
+theorem unwrap_wrap (verify : Bool) (layers : List Hdr) (reply : List Nat) (hl : ∀ h ∈ layers, h.rqLun < 4)
+    (h6 : 6 ≤ reply.length) (hn : ¬ NamesSendMsgRsp reply) :
+    decodeBridged .repaired verify (wrapReply layers reply) = .ok reply := by
   induction layers with
-  | nil => exact decodeBridged_plain reply h6 hc
+  | nil => exact decodeBridged_plain _ _ reply h6 (not_names_not_recognised verify reply hn)
   | cons h hs ih =>
     have hlen := wrapReply_length_ge hs reply
     have : ¬ (wrapReply hs reply).length < 6 := by omega
-    simp [wrapReply, decodeBridged_layer, this, ih]
+    have ih' := ih (fun x hx => hl x (List.mem_cons_of_mem _ hx))
+    simp [wrapReply, decodeBridged_layer .repaired verify h 0 _ (fun _ => hl h List.mem_cons_self), this, ih']
 
-theorem unwrap_error (layers : List Hdr) (failing : Hdr) (c : Nat) (tail : List Nat) (hc : c ≠ 0) :
-    decodeBridged (wrapReply layers (wrapLayer failing c tail)) = .ccError c := by
+/-- … in particular the reply of the specification's figure to EVERY inner command other than Send
+Message itself — command 34h in any other network function included (HPM.1 Get Upgrade Status is
+2Ch/34h). -/
+theorem unwrap_wrap_any_command (verify : Bool) (layers : List Hdr) (req : Hdr) (body : List Nat)
+    (hl : ∀ h ∈ layers, h.rqLun < 4) (hq : req.rqLun < 4)
+    (hne : ¬ (req.netfn = netfnApp ∧ req.cmd = cmdSendMessage)) :
+    decodeBridged .repaired verify (wrapReply layers (mkReply req body)) = .ok (mkReply req body) := by
+  apply unwrap_wrap verify layers _ hl (by rw [mkReply_length]; omega)
+  intro ⟨h1, h2⟩
+  rw [rspNetfn_mkReply req body hq] at h1
+  rw [rspCmd_mkReply] at h2
+  exact hne ⟨by omega, h2⟩
+
+/-- As shipped the same holds only for replies whose command BYTE is not 34h … -/
+theorem unwrap_wrap_asShipped (verify : Bool) (layers : List Hdr) (reply : List Nat) (h6 : 6 ≤ reply.length)
+    (hc : reply[5]? ≠ some 0x34) : decodeBridged .asShipped verify (wrapReply layers reply) = .ok reply := by
+  have hnr : isSendMsgRsp .asShipped verify reply = false := by
+    rw [Bool.eq_false_iff, Ne, isSendMsgRsp_asShipped_iff]
+    exact rspCmd_of_getElem? reply hc
   induction layers with
-  | nil => simp [wrapReply, decodeBridged_layer, hc]
+  | nil => exact decodeBridged_plain _ _ reply h6 hnr
+  | cons h hs ih =>
+    have hlen := wrapReply_length_ge hs reply
+    have : ¬ (wrapReply hs reply).length < 6 := by omega
+    simp [wrapReply, decodeBridged_layer .asShipped verify h 0 _ (fun hv => by cases hv), this, ih]
+
+def hpmReq : Hdr := { rsSa := 0x72, rsLun := 0, netfn := 0x2c, rqSa := 0x20, rqLun := 0, seq := 5, cmd := 0x34 }
+def hpmLayer : Hdr := { rsSa := 0x20, rsLun := 0, netfn := 6, rqSa := 0x81, rqLun := 0, seq := 5, cmd := 0x34 }
+
+/-- … and NOT for every inner command other than Send Message: the reply to HPM.1 Get Upgrade Status
+(2Ch/34h, completion code 00h, data 00 33 00) behind one successful Send Message response is unwrapped
+one layer too far (3 bytes come out instead of the 11-byte reply). -/
+theorem unwrap_wrap_asShipped_counterexample :
+    ¬ ∀ (layers : List Hdr) (req : Hdr) (body : List Nat), (∀ h ∈ layers, h.rqLun < 4) → req.rqLun < 4 →
+      ¬ (req.netfn = netfnApp ∧ req.cmd = cmdSendMessage) →
+      decodeBridged .asShipped false (wrapReply layers (mkReply req body)) = .ok (mkReply req body) := by
+  intro H
+  have := H [hpmLayer] hpmReq [0, 0, 0x33, 0] (by decide) (by decide) (by decide)
+  revert this
+  decide
+
+theorem unwrap_error (v : Variant) (verify : Bool) (layers : List Hdr) (failing : Hdr) (c : Nat) (tail : List Nat)
+    (hc : c ≠ 0) (hq : v = .repaired → (∀ h ∈ layers, h.rqLun < 4) ∧ failing.rqLun < 4) :
+    decodeBridged v verify (wrapReply layers (wrapLayer failing c tail)) = .ccError c := by
+  induction layers with
+  | nil => simp [wrapReply, decodeBridged_layer v verify failing c tail (fun hv => (hq hv).2), hc]
   | cons h hs ih =>
     have hlen := wrapReply_length_ge hs (wrapLayer failing c tail)
     rw [wrapLayer_length] at hlen
     have : ¬ (wrapReply hs (wrapLayer failing c tail)).length < 6 := by omega
-    simp [wrapReply, decodeBridged_layer, this, ih]
+    have ih' := ih (fun hv => ⟨fun x hx => (hq hv).1 x (List.mem_cons_of_mem _ hx), (hq hv).2⟩)
+    simp [wrapReply, decodeBridged_layer v verify h 0 _ (fun hv => (hq hv).1 h List.mem_cons_self), this, ih']
 
-theorem bare_ack_empty (layers : List Hdr) (acking : Hdr) :
-    decodeBridged (wrapReply layers (wrapLayer acking 0 [])) = .ok [] :=
-  decodeBridged_ack layers acking
+theorem bare_ack_empty (v : Variant) (verify : Bool) (layers : List Hdr) (acking : Hdr)
+    (hq : v = .repaired → (∀ h ∈ layers, h.rqLun < 4) ∧ acking.rqLun < 4) :
+    decodeBridged v verify (wrapReply layers (wrapLayer acking 0 [])) = .ok [] :=
+  decodeBridged_ack v verify layers acking hq
 
-theorem bare_ack_not_returned (req : Hdr) (fl : Flags) (acks : List (List Nat))
-    (ha : ∀ a ∈ acks, IsBareAck a) : recvBridged req fl acks = none := by
+/-- With verification a frame one of whose checksums fails is never unwrapped, whatever its header
+says: it is handed back unchanged (and `rx_filter`, which checks the same two sums, rejects it). -/
+theorem damaged_wrapper_not_unwrapped (f : List Nat) (h6 : 6 ≤ f.length) (hd : ¬ (hdrOk f ∧ payOk f)) :
+    decodeBridged .repaired true f = .ok f :=
+  decodeBridged_plain _ _ f h6 (damaged_not_recognised f hd)
+
+/-- … so ANY single corrupted byte of a wrapped reply (any depth, any layer's header, completion code,
+checksum, or the embedded bytes) keeps it from being unwrapped. -/
+theorem corrupted_wrapper_not_unwrapped (h : Hdr) (cc : Nat) (inner : List Nat) (i b : Nat)
+    (hf : Bytes (wrapLayer h cc inner)) (hi : i < (wrapLayer h cc inner).length) (hb : b < 256)
+    (hne : b ≠ (wrapLayer h cc inner)[i]) :
+    decodeBridged .repaired true ((wrapLayer h cc inner).set i b) = .ok ((wrapLayer h cc inner).set i b) := by
+  apply damaged_wrapper_not_unwrapped
+  · rw [List.length_set, wrapLayer_length]; omega
+  · exact corrupt_breaks_sums _ i b hf hi hb hne (wrapLayer_hdrOk _ _ _) (wrapLayer_payOk _ _ _)
+
+/-! ### the transport -/
+
+/-- acknowledgements of THIS transaction alone never produce a result -/
+theorem bare_ack_not_returned (seq : Nat) (req : Hdr) (fl : Flags) (acks : List (List Nat))
+    (ha : ∀ a ∈ acks, AckOf seq a) : recvBridged .repaired (some (bridgeHdr seq)) req fl acks = none := by
   induction acks with
   | nil => rfl
   | cons a as ih =>
-    rw [recv_skip_ack req fl a as (ha a List.mem_cons_self)]
+    rw [recv_skip_ack seq req fl a as (ha a List.mem_cons_self)]
     exact ih (fun x hx => ha x (List.mem_cons_of_mem _ hx))
 
-theorem bare_ack_waits (req : Hdr) (fl : Flags) (acks : List (List Nat)) (layers : List Hdr)
+/-- after ANY number of bare acknowledgements the matching reply — wrapped in the Send Message
+responses of this transaction or plain, ANY command that is not Send Message itself (34h in other
+network functions included) — is returned, completion code and data exactly. -/
+theorem bare_ack_waits (seq : Nat) (req : Hdr) (fl : Flags) (acks : List (List Nat)) (layers : List Hdr)
     (reply : List Nat) (rest : List (List Nat)) (hn : req.netfn % 2 = 0)
-    (ha : ∀ a ∈ acks, IsBareAck a) (hr : isReplyTo req reply fl) (hc : reply[5]? ≠ some 0x34) :
-    recvBridged req fl (acks ++ wrapReply layers reply :: rest) = some (.ok (replyData reply)) := by
+    (ha : ∀ a ∈ acks, AckOf seq a) (hl : ∀ h ∈ layers, SendMsgOf seq h)
+    (hr : isReplyTo req reply fl) (hc : ¬ NamesSendMsgRsp reply) :
+    recvBridged .repaired (some (bridgeHdr seq)) req fl (acks ++ wrapReply layers reply :: rest) =
+      some (.ok (replyData reply)) := by
   induction acks with
   | cons a as ih =>
-    rw [List.cons_append, recv_skip_ack req fl a _ (ha a List.mem_cons_self)]
+    rw [List.cons_append, recv_skip_ack seq req fl a _ (ha a List.mem_cons_self)]
     exact ih (fun x hx => ha x (List.mem_cons_of_mem _ hx))
   | nil =>
     have h6 : 6 ≤ reply.length := hr.1
-    have hflt : rxFilter req reply fl = .ok true := (rxFilter_true_iff req reply fl hn).mpr hr
     have hne : reply ≠ [] := by intro h; rw [h] at h6; simp at h6
-    rw [List.nil_append]
+    rw [List.nil_append, recvBridged]
     cases layers with
     | nil =>
-      simp only [wrapReply]
-      have hl : 5 < reply.length := by omega
-      have hne5 : reply[5] ≠ 52 := by
-        intro h; apply hc; rw [← h]; exact List.getElem?_eq_getElem hl
-      rw [recvBridged]
-      simp only [hl, dite_true, Gen.IpmbFilter.constSendMsgCmd, hne5, if_false]
-      cases reply with
-      | nil => exact absurd rfl hne
-      | cons b bs => simp [hflt, replyData, frameData]
+      have hnb : ¬ isReplyTo (bridgeHdr seq) reply { rqSeq := fl.rqSeq } := by
+        intro h
+        exact hc ⟨h.2.2.2.1, h.2.2.2.2.1⟩
+      simp only [wrapReply, classifyRx, rxFilter_false _ _ _ (bridgeHdr_even seq) h6 hnb,
+        afterFilter_hit req fl reply hn hr]
     | cons h hs =>
-      have hlen := wrapReply_length_ge (h :: hs) reply
-      have hl : 5 < (wrapReply (h :: hs) reply).length := by omega
-      have h5 : (wrapReply (h :: hs) reply)[5] = 52 := by simp only [wrapReply]; exact wrapLayer_cmd _ _ _
-      rw [recvBridged]
-      simp only [hl, dite_true, h5, Gen.IpmbFilter.constSendMsgCmd, if_true, unwrap_wrap (h :: hs) reply h6 hc]
+      have hun := unwrap_wrap true (h :: hs) reply (fun x hx => (hl x hx).2.1) h6 hc
+      simp only [wrapReply] at hun ⊢
+      simp only [classifyRx, bridge_filter_layer seq fl h 0 _ (hl h List.mem_cons_self), hun]
       cases reply with
       | nil => exact absurd rfl hne
-      | cons b bs => simp [hflt, replyData, frameData]
+      | cons x xs => simp only [afterUnwrap, afterFilter_hit req fl _ hn hr]
+
+/-- a request that is NOT bridged never unwraps anything: every intact reply to it is returned,
+whatever its command — 34h included (`Hpm.get_upgrade_status()` over RMCP). -/
+theorem unbridged_reply_returned (req : Hdr) (fl : Flags) (reply : List Nat) (hn : req.netfn % 2 = 0)
+    (hr : isReplyTo req reply fl) : classifyRx .repaired none req fl reply = .hit (replyData reply) :=
+  afterFilter_hit req fl reply hn hr
+
+/-- As shipped it is not: the intact reply to an unbridged HPM.1 Get Upgrade Status request is taken
+for a Send Message response and an IndexError leaves the transport. -/
+theorem unbridged_reply_asShipped_counterexample :
+    ¬ ∀ (req : Hdr) (fl : Flags) (reply : List Nat), req.netfn % 2 = 0 → isReplyTo req reply fl →
+      classifyRx .asShipped none req fl reply = .hit (replyData reply) := by
+  intro H
+  have := H hpmReq {} (mkReply hpmReq [0, 0, 0x33, 0]) (by decide) (by decide)
+  revert this
+  decide
+
+/-- A frame that is not the response to the Send Message of the transaction in hand is never
+unwrapped, so no completion code of a foreign or late acknowledgement is ever raised: an unbridged
+request raises no CompletionCodeError from the transport at all … -/
+theorem unbridged_never_raises_cc (req : Hdr) (fl : Flags) (f : List Nat) (c : Nat) :
+    classifyRx .repaired none req fl f ≠ .err (.ccError c) :=
+  afterFilter_no_cc req fl f c
+
+/-- … and during a bridged request the (failing or successful) Send Message response of an EARLIER
+transaction — other sequence number — is an unrelated frame like any other. -/
+theorem late_ack_is_noise (seq : Nat) (req : Hdr) (fl : Flags) (h : Hdr) (cc : Nat) (inner : List Nat)
+    (hn : req.netfn % 2 = 0) (hfl : fl.rqSeq = true) (hlun : h.rsLun < 4) (hne : h.seq ≠ seq)
+    (hreq : ¬ isReplyTo req (wrapLayer h cc inner) fl) :
+    classifyRx .repaired (some (bridgeHdr seq)) req fl (wrapLayer h cc inner) = .noise := by
+  simp only [classifyRx, bridge_filter_foreign seq fl h cc inner hfl hlun hne]
+  exact afterFilter_noise req fl _ hn (by rw [wrapLayer_length]; omega) hreq
+
+/-- As shipped the error code of a late acknowledgement is raised for whatever request is
+outstanding (here: an unbridged Get Device ID, sequence number 2, while the acknowledgement of an
+earlier transaction, sequence number 1, arrives with completion code 83h). -/
+theorem late_ack_asShipped_counterexample :
+    classifyRx .asShipped none { hpmReq with netfn := 6, cmd := 1, seq := 2 } {}
+      (wrapLayer { hpmLayer with seq := 1 } 0x83 []) = .err (.ccError 0x83) := by decide
 
 /-! ### non-vacuity -/
 
@@ -201,14 +334,27 @@ example : (do
 /-- 3 hops, then re-routed to 2 hops on the same Target: the request is the 2-hop literal above -/
 example : (({} : Target).reroute [[⟨0x81, 0x20, 0⟩, ⟨0x20, 0x82, 7⟩, ⟨0x20, 0x72, 0⟩], demoRouting]).request
       demoHdr [0xaa, 0xbb] 0x22 = encodeBridged demoRouting demoHdr [0xaa, 0xbb] 0x22 := by decide
-example : decodeBridged (wrapReply [demoHdr, demoHdr] (mkReply demoHdr [0, 1, 2])) = .ok (mkReply demoHdr [0, 1, 2]) :=
-  unwrap_wrap _ _ (by decide) (by decide)
-example : decodeBridged (wrapReply [demoHdr] (wrapLayer demoHdr 0xc3 [])) = .ccError 0xc3 :=
-  unwrap_error _ _ _ _ (by decide)
-example : IsBareAck (wrapLayer demoHdr 0 []) := ⟨[], demoHdr, rfl⟩
-example : recvBridged demoHdr {} [wrapLayer demoHdr 0 [], wrapReply [demoHdr] (mkReply demoHdr [0, 9])] =
-    some (.ok [0, 9]) :=
-  bare_ack_waits demoHdr {} [wrapLayer demoHdr 0 []] [demoHdr] (mkReply demoHdr [0, 9]) [] (by decide)
-    (by intro a ha; simp at ha; exact ⟨[], demoHdr, ha⟩) (by decide) (by decide)
+example : decodeBridged .repaired true (wrapReply [demoHdr, demoHdr] (mkReply demoHdr [0, 1, 2])) = .ok (mkReply demoHdr [0, 1, 2]) :=
+  unwrap_wrap _ _ _ (by decide) (by decide) (by decide)
+/-- HPM.1 Get Upgrade Status (2Ch/34h) behind two bridges -/
+example : decodeBridged .repaired true (wrapReply [hpmLayer, hpmLayer] (mkReply hpmReq [0, 0, 0x33, 0])) =
+    .ok (mkReply hpmReq [0, 0, 0x33, 0]) :=
+  unwrap_wrap_any_command _ _ _ _ (by decide) (by decide) (by decide)
+/-- the literal of tests/interfaces/test_ipmb.py::test_decode_bridged_message (wrapper checksums 6a, 36 are wrong):
+unwrapped without verification, left alone with it -/
+example : decodeBridged .repaired false [0x81, 0x1c, 0x63, 0x20, 0x14, 0x34, 0x00, 0x20, 0x1c, 0xc4, 0x82, 0x14, 0x34, 0x00,
+    0x20, 0x14, 0xcc, 0x74, 0x14, 0x22, 0x00, 0xed, 0xff, 0x6a, 0x36] = .ok [0x20, 0x14, 0xcc, 0x74, 0x14, 0x22, 0x00, 0xed, 0xff] := by
+  decide
+example : decodeBridged .repaired true (wrapReply [demoHdr] (wrapLayer demoHdr 0xc3 [])) = .ccError 0xc3 :=
+  unwrap_error _ _ _ _ _ _ (by decide) (by decide)
+example : AckOf 5 (wrapLayer hpmLayer 0 []) := ⟨[], hpmLayer, by simp, by decide, rfl⟩
+example : recvBridged .repaired (some (bridgeHdr 5)) hpmReq {}
+    [wrapLayer hpmLayer 0 [], wrapReply [hpmLayer] (mkReply hpmReq [0, 9])] = some (.ok [0, 9]) :=
+  bare_ack_waits 5 hpmReq {} [wrapLayer hpmLayer 0 []] [hpmLayer] (mkReply hpmReq [0, 9]) [] (by decide)
+    (by intro a ha; simp at ha; exact ⟨[], hpmLayer, by simp, by decide, ha⟩)
+    (by intro h hh; simp at hh; subst hh; decide) (by decide) (by decide)
+/-- a corrupted completion-code byte of a wrapper (00h -> 83h): dropped, not raised -/
+example : classifyRx .repaired (some (bridgeHdr 5)) hpmReq {}
+    ((wrapReply [hpmLayer] (mkReply hpmReq [0, 9])).set 6 0x83) = .noise := by decide
 
 end PyIpmi.Props.C09
